@@ -666,12 +666,15 @@ def run_twin_trace(cfg, calls):
 
 def run_trace(cfg, ops):
     """execute on the implementation. Returns dict(lines=[...], obs=[...], err=None|str)"""
-    with fd_budget(json.dumps(cfg, sort_keys=True)):
-        return _run_trace(cfg, ops)
-
-
-def _run_trace(cfg, ops):
     tmp = scratch_dir_for('kw', json.dumps(cfg, sort_keys=True))
+    try:
+        with fd_budget(json.dumps(cfg, sort_keys=True)):
+            return _run_trace(cfg, ops, tmp)
+    finally:
+        rm_rf(tmp)          # (outside the descriptor budget: a change that leaks descriptors must not leave the scratch directory behind)
+
+
+def _run_trace(cfg, ops, tmp):
     cwd = os.getcwd()
     try:
         os.chdir(tmp)
